@@ -15,4 +15,4 @@ for d in seeded/*/; do
   if [ "$sigs" -gt 0 ]; then v=CAUGHT; else v="NOT-CAUGHT($rc)"; fi
   echo "$n $p $v violations=$sigs first=$first" | tee -a $out.tmp
 done
-mv $out.tmp $out
+if [ -n "$1" ] && [ -f $out ]; then grep -v -F -f <(cut -d" " -f1 $out.tmp) $out > $out.keep; cat $out.keep $out.tmp | sort > $out; rm -f $out.keep $out.tmp; else mv $out.tmp $out; fi
